@@ -213,6 +213,9 @@ def gen_case(r, entry, shape):
     (most string overloads reject a rational count, which would only make the
     law unstatable for the whole case)."""
     doms = entry["domains"]
+    alt = entry.get("shape_domains", {}).get(shape)
+    if alt and r.random() < 0.5:
+        doms = alt  # a wider domain that is sound for this shape only (committed with its reason in the table)
     fl = r.choices(["norat", "nostr", None], [0.45, 0.35, 0.2])[0]
     depth = r.choice([1, 1, 2, 2, 3])
     if shape == "L":
